@@ -15,6 +15,7 @@ package c09
 import (
 	"fmt"
 	"math"
+	"os"
 	"strconv"
 	"strings"
 	"time"
@@ -69,24 +70,56 @@ func runLib(ns []*core.N, cutoff float64) (class, res string) {
 	return "ok", back.Dump()
 }
 
+// CLI modes (bits): input on stdin instead of a file, Nexus input (--format nexus), output
+// to a file (-o) instead of stdout.
+const (
+	cliStdin = 1
+	cliNexus = 2
+	cliOut   = 4
+)
+
 // runCLI pushes the same collection through `gotree compute consensus`.
-// noF: the -f option is omitted (documented default 0.5; F24, repaired by 7e6fdde).
-func runCLI(c *core.Ctx, ns []*core.N, cutoff float64, noF bool) (class, res string) {
+// ftext is the text given to -f ("" = the option is omitted: documented default 0.5; F24,
+// repaired by 7e6fdde).
+func runCLI(c *core.Ctx, ns []*core.N, ftext string, mode int) (class, res string) {
 	var b strings.Builder
-	for _, n := range ns {
+	if mode&cliNexus != 0 {
+		b.WriteString("#NEXUS\nBEGIN TREES;\n")
+	}
+	for i, n := range ns {
 		t, err := core.Build(n)
 		if err != nil {
 			panic(err)
 		}
-		b.WriteString(t.Newick())
-		b.WriteByte('\n')
+		if mode&cliNexus != 0 {
+			fmt.Fprintf(&b, "  TREE tree%d = %s\n", i, t.Newick())
+		} else {
+			b.WriteString(t.Newick())
+			b.WriteByte('\n')
+		}
 	}
-	file := c.TmpFile(b.String())
-	args := []string{"compute", "consensus", "-i", file}
-	if !noF {
-		args = append(args, "-f", strconv.FormatFloat(cutoff, 'g', -1, 64))
+	if mode&cliNexus != 0 {
+		b.WriteString("END;\n")
 	}
-	r := c.RunCLI("", 30*time.Second, args...)
+	args := []string{"compute", "consensus"}
+	stdin := ""
+	if mode&cliStdin != 0 {
+		stdin = b.String() // -i defaults to stdin
+	} else {
+		args = append(args, "-i", c.TmpFile(b.String()))
+	}
+	if mode&cliNexus != 0 {
+		args = append(args, "--format", "nexus")
+	}
+	outfile := ""
+	if mode&cliOut != 0 {
+		outfile = c.TmpFile("")
+		args = append(args, "-o", outfile)
+	}
+	if ftext != "" {
+		args = append(args, "-f", ftext)
+	}
+	r := c.RunCLI(stdin, 30*time.Second, args...)
 	if r.Timeout {
 		return "timeout", ""
 	}
@@ -96,12 +129,24 @@ func runCLI(c *core.Ctx, ns []*core.N, cutoff float64, noF bool) (class, res str
 			return "err:range", ""
 		case strings.Contains(r.Stderr, "same set of tips"):
 			return "err:taxa", ""
+		case strings.Contains(r.Stderr, "invalid argument"):
+			return "err:flag", ""
 		case strings.Contains(r.Stderr, "panic:") || strings.Contains(r.Stderr, "goroutine "):
 			return "panic:cli", ""
 		}
 		return "err:other:" + core.Escape(firstLine(r.Stderr)), ""
 	}
 	out := strings.TrimSpace(r.Stdout)
+	if mode&cliOut != 0 {
+		if out != "" {
+			return "malformed:stdout-not-empty-with-o", ""
+		}
+		data, err := os.ReadFile(outfile)
+		if err != nil {
+			return "malformed:no-output-file", ""
+		}
+		out = strings.TrimSpace(string(data))
+	}
 	t, err := newick.NewParser(strings.NewReader(out)).Parse()
 	if err != nil {
 		return "malformed:unparsable-output", ""
@@ -111,6 +156,19 @@ func runCLI(c *core.Ctx, ns []*core.N, cutoff float64, noF bool) (class, res str
 		return "malformed:" + core.Escape(strings.Join(wf.Problems, ";")), ""
 	}
 	return "ok", back.Dump()
+}
+
+// emitClif runs the CLI with the threshold given as text (the driver parses the text with
+// the model's `parseCutoff`) in one of the CLI modes.
+func emitClif(c *core.Ctx, kind string, ns []*core.N, ftext string, mode int) {
+	class, res := runCLI(c, ns, ftext, mode)
+	fl := 0
+	if v, err := strconv.ParseFloat(ftext, 64); err == nil {
+		fl = floorGo(v, len(ns))
+	} else if ftext == "" {
+		fl = floorGo(0.5, len(ns))
+	}
+	c.Emit("C09.clif", kind, fmt.Sprint(mode), core.Escape(ftext), fmt.Sprint(fl), core.Dumps(ns), class, res)
 }
 
 func firstLine(s string) string {
@@ -124,7 +182,11 @@ func firstLine(s string) string {
 func emitCons(c *core.Ctx, kind string, cli bool, ns []*core.N, cutoff float64) (string, string) {
 	var class, res string
 	if cli {
-		class, res = runCLI(c, ns, cutoff, strings.HasPrefix(kind, "cli-default"))
+		ft := strconv.FormatFloat(cutoff, 'g', -1, 64)
+		if strings.HasPrefix(kind, "cli-default") {
+			ft = ""
+		}
+		class, res = runCLI(c, ns, ft, 0)
 	} else {
 		class, res = runLib(ns, cutoff)
 	}
@@ -167,6 +229,15 @@ func Replay(c *core.Ctx, lines []string) {
 			}
 			cli := strings.HasPrefix(f[1], "cli") && c.Gotree != ""
 			emitCons(c, f[1], cli, parseDumps(f[4]), cutoff)
+		case f[0] == "C09.clif" && len(f) >= 6:
+			mode, _ := strconv.Atoi(f[2])
+			ft, err := core.Unescape(f[3])
+			if err != nil {
+				panic(err)
+			}
+			if c.Gotree != "" {
+				emitClif(c, f[1], parseDumps(f[5]), ft, mode)
+			}
 		case f[0] == "C09.inv" && len(f) >= 8:
 			cutoff, err := core.ParseRat(f[2])
 			if err != nil {
@@ -237,6 +308,28 @@ func rerootRandom(g *core.G, n *core.N) *core.N {
 			break
 		}
 		n = moveRoot(n, inner[g.Intn(len(inner))])
+	}
+	return n
+}
+
+// tipRoot re-roots an unrooted tree at one of its tips (the root of the result has one
+// neighbour and carries the tip's name): Consensus moves such a root to its neighbour
+// since 5a3a76a, before that these inputs were rejected.
+func tipRoot(g *core.G, n *core.N) *core.N {
+	for steps := 0; steps < 1000 && len(n.Kids) >= 2; steps++ {
+		i := g.Intn(len(n.Kids))
+		c := n.Kids[i]
+		if len(c.Kids) == 0 {
+			rest := &core.N{Name: n.Name, Comments: n.Comments, E: c.E}
+			for j, k := range n.Kids {
+				if j != i {
+					rest.Kids = append(rest.Kids, k)
+				}
+			}
+			rest.PPos = g.Intn(len(rest.Kids) + 1)
+			return &core.N{Name: c.Name, Comments: c.Comments, Kids: []*core.N{rest}}
+		}
+		n = moveRoot(n, i)
 	}
 	return n
 }
@@ -462,6 +555,9 @@ func addSingles(g *core.G, o *core.TreeOpts, n *core.N) {
 	}
 }
 
+// funny: odd tip names allowed (library cases)
+var funny bool
+
 // big: thorough tier only — a share of the collections has up to 18 taxa and up to 20 trees
 var big bool
 
@@ -472,6 +568,12 @@ func collection(g *core.G) ([]*core.N, core.TreeOpts) {
 		o.MinTips, o.MaxTips = 10, 18
 		sizes = []int{7, 12, 16, 20}
 	}
+	if g.Chance(0.1) { // exactly four taxa: one possible inner bipartition per tree
+		o.MinTips, o.MaxTips = 4, 4
+	}
+	if funny && g.Chance(0.1) { // look-alike / odd tip names (library tier only: built through the API)
+		o.FunnyNames = true
+	}
 	base, _ := g.Tree(o)
 	k := sizes[g.Intn(len(sizes))]
 	pC := []float64{0, 0.1, 0.3, 0.5}[g.Intn(4)]
@@ -479,17 +581,83 @@ func collection(g *core.G) ([]*core.N, core.TreeOpts) {
 	rooting := g.Intn(3)
 	ns := make([]*core.N, k)
 	withSingles := g.Chance(0.2)
+	if g.Chance(0.04) { // all-star trees: no inner bipartition anywhere
+		pC, pN = 1, 0
+	}
+	tipRooted := g.Chance(0.08)
 	for i := range ns {
 		ns[i] = variant(g, &o, base, pC, pN, rooting)
+		if tipRooted && g.Chance(0.6) { // rooted at a tip (5a3a76a)
+			if u := unrootN(ns[i]); len(u.Kids) >= 3 {
+				ns[i] = tipRoot(g, u)
+			}
+		}
 		if withSingles {
 			addSingles(g, &o, ns[i])
+		}
+	}
+	if k > 1 && g.Chance(0.15) { // duplicate trees: exact copies (same lengths, same presentation)
+		for d := 1 + g.Intn(k-1); d > 0; d-- {
+			i, j := g.Intn(k), g.Intn(k)
+			ns[i] = ns[j].Clone()
 		}
 	}
 	return ns, o
 }
 
+// textual forms of a threshold for -f; every one denotes exactly the float64 v (v is dyadic)
+func fTexts(g *core.G, v float64) string {
+	plain := strconv.FormatFloat(v, 'f', -1, 64)
+	switch g.Intn(7) {
+	case 0:
+		return plain
+	case 1:
+		return strconv.FormatFloat(v, 'e', -1, 64)
+	case 2:
+		return strings.ToUpper(strconv.FormatFloat(v, 'e', -1, 64))
+	case 3:
+		if strings.HasPrefix(plain, "0.") {
+			return plain[1:]
+		}
+		return plain + ".0"
+	case 4:
+		if strings.Contains(plain, ".") {
+			return plain + "00"
+		}
+		return plain + ".000"
+	case 5:
+		return "+" + plain
+	default:
+		return "00" + plain
+	}
+}
+
+// genClif: CLI cases with the threshold as text, stdin / Nexus / -o variants
+func genClif(c *core.Ctx) {
+	g := c.G
+	funny = false
+	ns, _ := collection(g)
+	mode := g.Intn(8)
+	var ft, kind string
+	switch r := g.Intn(100); {
+	case r < 10:
+		bad := []string{"abc", "0.5.1", "1e", "0,5", "--", "0x", "1e+"}
+		ft, kind = bad[g.Intn(len(bad))], "clif-badfloat"
+	case r < 20:
+		ft, kind = "", "clif-default"
+	case r < 35:
+		ft, kind = fTexts(g, []float64{0.5, 1}[g.Intn(2)]), "clif-edge"
+	case r < 50:
+		ft, kind = fTexts(g, []float64{0.25, 1.5, 0, 2, 1.015625, 0.484375}[g.Intn(6)]), "clif-outside"
+	default:
+		ft, kind = fTexts(g, 0.5+float64(g.Intn(33))/64), "clif-dyadic"
+	}
+	emitClif(c, kind, ns, ft, mode)
+}
+
 func genCase(c *core.Ctx, cli bool) {
 	g := c.G
+	funny = !cli
 	ns, o := collection(g)
 	cutoff, ck := pickCutoff(g, len(ns))
 	kind := "lib-" + ck
@@ -539,6 +707,9 @@ func Run(c *core.Ctx) {
 		m := c.Scale(25, 500)
 		for i := 0; i < m; i++ {
 			genCase(c, true)
+		}
+		for i := 0; i < c.Scale(30, 500); i++ {
+			genClif(c)
 		}
 	}
 }
